@@ -199,12 +199,12 @@ theorem rd_poll2 {g : E2E.Cfg} (ok : Cfg2 g) {r : AReq} {h : HState} {e : Run.En
   · omega
 
 theorem handler_core2 {g : E2E.Cfg} (ok : Cfg2 g) {c : Conn} {r : AReq} {h : HState} (hph : c.phase = .handler r h)
-    (hout : HOut g.Wc g.Rd c.env (handlerPoll (handlerFuel c.env r) r h c.env))
+    (hout : HOut g.Wc g.Rd c.env (handlerPoll ((handlerFuel c.env r + scriptOf c)) r h c.env))
     (hb : Ben c.env.tr) (hem : c.env.tr.endMode = .eof) (hstop : c.stop = false) (hev : Ev1 g c.env.tr)
     (hsc : c.scripts = g.more) :
     Res g (2 * c.env.tr.input.length + 10) c := by
   have hstep := C07.handler_step c r h hph
-  rcases hhp : handlerPoll (handlerFuel c.env r) r h c.env with ⟨r', h', e', res⟩
+  rcases hhp : handlerPoll ((handlerFuel c.env r + scriptOf c)) r h c.env with ⟨r', h', e', res⟩
   rw [hhp] at hstep hout
   obtain ⟨hts, hsegs, hres⟩ := hout
   simp only at hts hsegs hres
@@ -338,7 +338,7 @@ theorem parse_poll2 {g : E2E.Cfg} (ok : Cfg2 g) {c : Conn} {F : Bytes}
               { ops := g.hscript, propagate := true },
           (⟨t', c1.env.mutex, c1.env.segs⟩ : Run.Env).ev (hsEvent g.p.request), g.more, false⟩) rfl
       (first_poll2 ok (e := (⟨t', c1.env.mutex, c1.env.segs⟩ : Run.Env).ev (hsEvent g.p.request)) he1len
-        (by show e1 ++ t'.input = g.X; rw [hinp']; exact hwire) hL1 hmx1 hben2 hfuelH) hben2 hem2 rfl hev1 rfl
+        (by show e1 ++ t'.input = g.X; rw [hinp']; exact hwire) hL1 hmx1 hben2 (Nat.le_trans hfuelH (Nat.le_add_right _ _))) hben2 hem2 rfl hev1 rfl
     have hres := Res.of_steps (hs.trans (Steps.one hstep')) (hfr.link.trans ⟨hwsE, rfl, hstop1.symm ▸ rfl⟩) hcore
     refine hres.mono ?_
     have h1 := hfr.ts.tle.input_len
@@ -390,7 +390,7 @@ theorem stage_poll2 {g : E2E.Cfg} (ok : Cfg2 g) {c : Conn} (hst : Stage g c) (he
   | start hph hwire hraw hlog hb hstop hsc hm hev => exact start_poll2 ok hph hwire hraw hlog hb hem hstop hsc hm hev
   | parse hst hsc hm hev => exact (parse_poll2 ok hst hem hsc hm hev).mono (by omega)
   | @hread r h hph hr hb hstop hev hsc =>
-    exact (handler_core2 ok hph (rd_poll2 ok hr hb hr.fuel) hb hem hstop hev hsc).mono (by omega)
+    exact (handler_core2 ok hph (rd_poll2 ok hr hb (Nat.le_trans hr.fuel (Nat.le_add_right _ _))) hb hem hstop hev hsc).mono (by omega)
   | @hwrite r h O1 hph hw hb hstop hev hsc =>
     refine (handler_core2 ok hph (write_phase hw hb ?_) hb hem hstop hev hsc).mono (by omega)
     have := handlerFuel_ge c.env r
